@@ -499,11 +499,12 @@ inductive NameRef
 /-- the owner recorded for a name (buffered view, `getOwner(scs, name, false)`) -/
 def World.ownerOf (w : World) (n : Nat) : Option Addr := (mget w.names n).map (·.1)
 
-/-- `ExecuteNameTx`: `nameState` is the owner of the name contract if one is set (the sender's own
-record if the sender is that owner, otherwise a *fresh* `GetAccountState`), else the receiver -/
-def nameRef (w : World) (snd : Copy) : NameRef :=
+/-- `ExecuteNameTx`: `nameState` is the owner of the name contract if one is set — the sender's own
+record if the sender is that owner, the receiver's record if `aergo.name` itself is, otherwise a fresh
+`GetAccountState` — else the receiver -/
+def nameRef (w : World) (snd rcv : Copy) : NameRef :=
   match w.ownerOf nAergoName with
-  | some o => if snd.id = o then .snd else .other (w.getCopy o)
+  | some o => if snd.id = o then .snd else if rcv.id = o then .rcv else .other (w.getCopy o)
   | none => .rcv
 
 /-- `SendBalance(sender, nameState, amount)` of CreateName / UpdateName, then `nameState.PutState()` -/
@@ -531,17 +532,22 @@ def validateName (c : Ctx) (w : World) (tx : Tx) (snd : Copy) : Option Rej :=
   | .setOwner _ => if (w.ownerOf nAergoName).isSome then some .other else none
   | _ => some .other
 
-/-- `SetContractOwner` + the two `PutState`s: `nameState` is the receiver (no owner yet), `ownerState`
-a fresh copy of `a` -/
-def setOwner (w : World) (rcv : Copy) (a : Addr) : Option (Copy × World) :=
-  let oc := w.getCopy a
-  match sendBal rcv oc rcv.cur.bal with
-  | none => none
-  | some (r, oc') =>
-    let w1 := { w with names := mset w.names nAergoName (a, aName) }
-    let w2 := w1.put oc'.id oc'.cur        -- ownerState.PutState()
-    let w3 := w2.put r.id r.cur            -- nameState.PutState()
-    some (r, w3)
+/-- `SetContractOwner` + the two `PutState`s: `nameState` is the receiver (no owner yet); `ownerState`
+is the sender's or the receiver's live record if the new owner is one of them, else a fresh copy of `a` -/
+def setOwner (w : World) (snd rcv : Copy) (a : Addr) : Option (Copy × Copy × World) :=
+  let w1 := { w with names := mset w.names nAergoName (a, aName) }
+  if a = snd.id then
+    match sendBal rcv snd rcv.cur.bal with
+    | none => none
+    | some (r, s) => some (s, r, (w1.put s.id s.cur).put r.id r.cur)
+  else if a = rcv.id then
+    -- SendBalance(nameState, nameState, ..) is the identity
+    some (snd, rcv, (w1.put rcv.id rcv.cur).put rcv.id rcv.cur)
+  else
+    let oc := w.getCopy a
+    match sendBal rcv oc rcv.cur.bal with
+    | none => none
+    | some (r, oc') => some (snd, r, (w1.put oc'.id oc'.cur).put r.id r.cur)
 
 /-- `name.ExecuteNameTx`: `ValidateNameTx`, choice of `nameState`, CreateName / UpdateName /
 SetContractOwner, the `PutState`s inside. -/
@@ -553,7 +559,7 @@ def execName (c : Ctx) (w : World) (tx : Tx) (snd rcv : Copy) : GovOut :=
   | none =>
   match tx.gov with
   | .nameCreate n =>
-    match payName (nameRef w snd) snd rcv tx.amount { w with names := mset w.names n (snd.id, snd.id) } with
+    match payName (nameRef w snd rcv) snd rcv tx.amount { w with names := mset w.names n (snd.id, snd.id) } with
     | none => fail .insufficient
     | some (s, r, w') => { snd := s, rcv := r, w := w', err := none }
   | .nameUpdate n to =>
@@ -561,13 +567,13 @@ def execName (c : Ctx) (w : World) (tx : Tx) (snd rcv : Copy) : GovOut :=
     if (mget w.namesInit n).isNone then fail .other
     else
       let owner := (mget w.creator to).getD to
-      match payName (nameRef w snd) snd rcv tx.amount { w with names := mset w.names n (owner, to) } with
+      match payName (nameRef w snd rcv) snd rcv tx.amount { w with names := mset w.names n (owner, to) } with
       | none => fail .insufficient
       | some (s, r, w') => { snd := s, rcv := r, w := w', err := none }
   | .setOwner a =>
-    match setOwner w rcv a with
+    match setOwner w snd rcv a with
     | none => fail .insufficient
-    | some (r, w') => { snd, rcv := r, w := w', err := none }
+    | some (s, r, w') => { snd := s, rcv := r, w := w', err := none }
   | _ => fail .other
 
 /-! ## chain/chainhandle.go -/
